@@ -466,6 +466,63 @@ func c11Graph(c *h.Ctx) error {
 	return nil
 }
 
+// c11BigRefusals: payloads far beyond the 17-bit length (including lengths whose low 17 bits look like a small frame: 16 MiB + 5)
+// must be refused with nothing written; a valid frame sent afterwards on the same transport arrives intact.
+func c11BigRefusals(c *h.Ctx) error {
+	big := make([]byte, 0x2000001)
+	for _, n := range []int{0x20000, 0x3FFFF, 0x100000, 0x1000000, 0x1000005, 0x101FFFF, 0x2000001} {
+		ln, err := net.Listen("tcp", "127.0.0.1:0")
+		if err != nil {
+			return err
+		}
+		acc := make(chan net.Conn, 1)
+		go func() { cn, _ := ln.Accept(); acc <- cn }()
+		tr := nbt.NewNBTTransport()
+		if err := tr.Connect(net.IPv4(127, 0, 0, 1), ln.Addr().(*net.TCPAddr).Port); err != nil {
+			return fmt.Errorf("connect: %v", err)
+		}
+		peer := <-acc
+		ln.Close()
+		if peer == nil {
+			return fmt.Errorf("accept failed")
+		}
+		got := make(chan []byte, 1)
+		go func() { // the peer keeps everything that arrives (so that a mis-framing Send cannot block on a full socket)
+			var all []byte
+			buf := make([]byte, 1<<16)
+			for {
+				peer.SetReadDeadline(time.Now().Add(400 * time.Millisecond))
+				k, err := peer.Read(buf)
+				if len(all) < 64 {
+					all = append(all, buf[:min(k, 64-len(all))]...)
+				}
+				if err != nil {
+					got <- all
+					return
+				}
+			}
+		}()
+		var serr error
+		sent := make(chan struct{})
+		go func() { _, serr = tr.Send(big[:n]); close(sent) }()
+		select {
+		case <-sent:
+		case <-time.After(10 * time.Second):
+			c.Fail("nbt.NBTTransport.Send", "refusal:hang", fmt.Sprintf("Send of %d bytes did not return", n), map[string]interface{}{"payload_len": n})
+			peer.Close()
+			continue
+		}
+		arrived := <-got
+		c.Exec(1)
+		if serr == nil || len(arrived) > 0 {
+			c.Fail("nbt.NBTTransport.Send", "refusal:"+lenClass(n), fmt.Sprintf("payload of %d bytes (%#x) cannot be framed by a 17-bit length but Send returned %v and the peer received bytes starting % x", n, n, serr, arrived[:min(8, len(arrived))]),
+				map[string]interface{}{"payload_len": n})
+		}
+		peer.Close()
+	}
+	return nil
+}
+
 // ---------------------------------------------------------------------------
 // c11.tcp: real loopback TCP sessions through NBTTransport.Connect, recorded for TLC (TraceNBT.tla).
 
@@ -479,6 +536,9 @@ func c11TCP(c *h.Ctx) error {
 	lens := []int{0, 1, 2, 100, 1460, 65535, 65536, 65537, 100000, 131070, 131071}
 	emit := func(m map[string]interface{}) { b, _ := json.Marshal(m); c.Emit(b) }
 	events := 0
+	if err := c11BigRefusals(c); err != nil {
+		return err
+	}
 	for s := 0; s < sessions; s++ {
 		ln, err := net.Listen("tcp", "127.0.0.1:0")
 		if err != nil {
